@@ -234,4 +234,48 @@ theorem seqx_content (s : Sequence) (d : Deferred SEQXPkg) (pkg : SEQXPkg)
                       simp only [seqxPackage, List.getElem?_map, List.getElem?_eq_getElem hr, ← er, Option.map_some]
                       exact ⟨trivial, trivial, trivial, trivial, trivial⟩
 
+/-- **the flags variant**: the same package as `outputForSEQXFile` plus, for channel `i` and
+    position `p`, the four flags of channel `chans[i]` of `P[p]` (`[0, 0, 0, 0]` where unset) -/
+theorem seqx_flags_content (s : Sequence) (d : Deferred SEQXPkg) (pkg : SEQXPkg)
+    (h : s.outputForSEQXFileWithFlags = .ok d) (hp : d.pkg = some pkg) :
+    ∃ (P : List (Dict Chan ChOutF)) (chans : List Chan) (d0 : Deferred SEQXPkg) (pkg0 : SEQXPkg) (flags : List (List (List ℕ))),
+      s.prepareForOutputting = .ok P ∧ s.outputForSEQXFile = .ok d0 ∧ d0.pkg = some pkg0 ∧
+      pkg = { pkg0 with flags := some flags } ∧ flags.length = chans.length ∧
+      (∀ i p, i < chans.length → p < P.length → ∃ c, (P[p]?).bind (fun el => (chans[i]?).map (lookupCh el)) = some (.ok c) ∧
+          ((flags[i]?).bind (·[p]?)) = some ((chFlags c).getD [0, 0, 0, 0])) := by
+  unfold outputForSEQXFileWithFlags at h
+  split at h
+  · cases h
+  · rename_i P hP
+    split at h
+    · cases h
+    · split at h
+      · cases h
+      · rename_i chans _
+        split at h
+        · cases h
+        · rename_i flags hflags
+          split at h
+          · cases h
+          · rename_i d0 hd0
+            cases h
+            simp only [Option.map_eq_some_iff] at hp
+            obtain ⟨pkg0, hpkg0, rfl⟩ := hp
+            have hl := mapM_ok_length _ _ _ hflags
+            refine ⟨P, chans, d0, pkg0, flags, hP, hd0, hpkg0, rfl, hl, ?_⟩
+            intro i p hi hpp
+            have hi' : i < flags.length := by omega
+            have er := mapM_ok_getElem _ _ _ hflags i hi hi'
+            have hrl := mapM_ok_length _ _ _ er
+            have hp' : p < (flags[i]).length := by omega
+            have ec := mapM_ok_getElem _ _ _ er p hpp hp'
+            unfold seqxFlagCell at ec
+            split at ec
+            · cases ec
+            · rename_i c hc
+              simp only [Except.ok.injEq] at ec
+              refine ⟨c, ?_, ?_⟩
+              · simp [List.getElem?_eq_getElem hpp, List.getElem?_eq_getElem hi, hc]
+              · simp [List.getElem?_eq_getElem hi', List.getElem?_eq_getElem hp', ec]
+
 end BB.C15
